@@ -124,6 +124,21 @@ def main():
                 for y in (1, 2, 4, 16):
                     op1.append(({"m": ["int", str(x), "1"], "u": U1(ua)}, {"m": [rng.choice(["int", "float"]), str(y), "1"], "u": U1(ub)}))
     table({"systems": False, "define": define1, "decls": decls1}, op1, "one-sided", lambda q: Fraction(int(q["m"][1]), int(q["m"][2])) * size1[q["u"][0][1]], exact=True)
+    # the same systems when the application compared the new units before declaring how they relate (each comparison then failed or
+    # said "not equal"): afterwards the order is the declared one all the same
+    table({"systems": False, "define": define1, "decls": decls1, "compare_before": True}, op1[::3], "compared-before-declared",
+          lambda q: Fraction(int(q["m"][1]), int(q["m"][2])) * size1[q["u"][0][1]], exact=True)
+    define2 = [["vfell", [[1, 1]]], ["vfcubit", [[1, 1]]], ["vfspan", [[1, 1]]]]
+    decls2 = [[U1("vfell"), ["float", "1", "2"], U1("vfcubit")], [U1("vfspan"), ["float", "1", "4"], U1("vfell")]]
+    size2 = {"vfcubit": Fraction(1), "vfell": Fraction(1, 2), "vfspan": Fraction(1, 8)}
+    cb = []
+    for ua in size2:
+        for ub in size2:
+            for pa in (None, "kilo"):
+                for x, y in ((2, 1), (1, 4), (8, 1), (3, 3), (0, 0), (16, 2)):
+                    cb.append(({"m": ["int", str(x), "1"], "u": [[pa, ua, 1]]}, {"m": [rng.choice(["int", "float"]), str(y), "1"], "u": [[None, ub, 1]]}))
+    table({"systems": True, "define": define2, "decls": decls2, "compare_before": True}, cb, "compared-before-declared",
+          lambda q: Fraction(int(q["m"][1]), int(q["m"][2])) * size2[q["u"][0][1]] * (1000 if q["u"][0][0] == "kilo" else 1), exact=True)
     recs = qdriver.run(cases)
     for start, a, b in groups:
         R = {}
